@@ -1,6 +1,6 @@
 (* Correspondence runner for the wire codec (C11, C12, byte half of C05). *)
 From Coq Require Export List NArith ZArith Bool String Uint63.
-From Mac Require Export Model.Caveat Model.Msgpack Model.Codec Model.TypedDec Model.TypedDec2 Generated.Facts Corr.Transport.
+From Mac Require Export Model.Caveat Model.Msgpack Model.Codec Model.TypedDec Model.TypedDec2 Model.TokenDec Generated.Facts Corr.Transport.
 Export ListNotations.
 
 Inductive mcase :=
@@ -17,7 +17,8 @@ Inductive mcase :=
 | KDecBody (ty : N) (body : bytes) (ok : bool) (reenc : bytes)    (* DecodeCaveats on 92 <ty> <body>: the one-caveat set re-encoded (typed lenient decoding, Model.TypedDec) *)
 | KDecBody2 (pz : bool) (ty : N) (body : bytes) (ok : bool) (nilrs : bool) (reenc : bytes)   (* the same for every type (Model.TypedDec2); pz: which
                                                                       decoder this process built for *CaveatSet; nilrs: the caveat holds a nil resource set *)
-| KDecSet (pz : bool) (input : bytes) (ok : bool) (reenc : bytes). (* DecodeCaveats on a whole set, re-encoded *)
+| KDecSet (pz : bool) (input : bytes) (ok : bool) (reenc : bytes) (* DecodeCaveats on a whole set, re-encoded *)
+| KDecTok (pz : bool) (input : bytes) (ok : bool) (reenc : bytes). (* macaroon.Decode on a whole token (Model.TokenDec), re-encoded *)
 
 Definition b2z (b : bool) : Z := if b then 1%Z else 0%Z.
 Definition zs (l : list N) : list Z := Z.of_nat (List.length l) :: map Z.of_N l.
@@ -50,6 +51,7 @@ Definition model_out (k : mcase) : list Z :=
   | KDecBody ty body _ _ => match dec_body ty body with Some c => zo (enc_one c) | None => [0%Z] end
   | KDecBody2 pz ty body _ _ _ => match dec_body2_gen true pz ty body with Some c => b2z (dec_nilrs ty body) :: zo (enc_one c) | None => [0%Z] end
   | KDecSet pz i _ _ => match dec_set_typed_gen true pz i with Some cs => zo (enc_set cs) | None => [0%Z] end
+  | KDecTok pz i _ _ => match dec_token_gen false true pz i with Some t => zo (enc_tok t) | None => [0%Z] end
   end.
 
 Definition obs_out (k : mcase) : list Z :=
@@ -60,7 +62,7 @@ Definition obs_out (k : mcase) : list Z :=
   | KSkip _ ok n => if ok then [1%Z; Z.of_N n] else [0%Z]
   | KJTypeRead _ t => [Z.of_N t]
   | KJTypePrint _ o => zs (str_bytes o)
-  | KDecBody _ _ ok o | KDecSet _ _ ok o => if ok then 1%Z :: zs o else [0%Z]
+  | KDecBody _ _ ok o | KDecSet _ _ ok o | KDecTok _ _ ok o => if ok then 1%Z :: zs o else [0%Z]
   | KDecBody2 _ _ _ ok nilrs o => if ok then b2z nilrs :: 1%Z :: zs o else [0%Z]
   end.
 Definition run (l : list mcase) := mismatches model_out obs_out l.
